@@ -30,7 +30,10 @@ theorem not_two_valued (e : Expr) (b : Bool) (he : eval O env e = .ok (.bool b))
     eval O env (.not e) = .ok (.bool (!b)) := by
   simp [eval, he, bind, Outcome.bind, invert]
 
-/-- NOT of NULL is NULL (which WHERE treats as not true) -/
+/-- NOT of NULL is NULL. NOT is the one Boolean operator that is not two-valued (AND / OR never give NULL,
+`C03.bool_ops_two_valued`); wherever the result is used as a condition — WHERE, HAVING, an operand of AND / OR, a WHEN
+clause — NULL does not hold (`condHolds`; `C03.and_meaning`, `C03.case_skip_false`, `where_null_is_no_row`), so
+`WHERE NOT x` selects no row on which `x` is NULL, just as `WHERE x` does -/
 theorem not_null (e : Expr) (he : eval O env e = .ok .null) : eval O env (.not e) = .ok .null := by
   simp [eval, he, bind, Outcome.bind, invert]
 
@@ -123,12 +126,17 @@ theorem no_value_propagates_second (l e : Expr) (lv : Value) (k : ErrKind) (hl :
     (∀ op, eval O env (.arith op l e) = .error k) := by
   refine ⟨?_, ?_, ?_⟩ <;> intros <;> simp [eval, hl, he, bind, Outcome.bind]
 
-/-- AND / OR evaluate their right operand exactly when the left one does not decide; then its error is the error -/
+/-- AND / OR evaluate their right operand exactly when the left one does not decide; then its error is the error.
+(The left operand a condition: BOOLEAN or NULL; for any other type see `C03.bool_op_type_mismatch_is_error`.) -/
 theorem bool_right_error (l e : Expr) (lv : Value) (k : ErrKind) (hl : eval O env l = .ok lv)
     (he : eval O env e = .error k) :
-    eval O env (.boolOp true l e) = (if lv.truthy then .error k else .ok (.bool false)) ∧
-    eval O env (.boolOp false l e) = (if lv.truthy then .ok (.bool true) else .error k) := by
-  constructor <;> cases h : lv.truthy <;> simp [eval, hl, he, bind, Outcome.bind, h, pure]
+    (lv = .bool true →
+      eval O env (.boolOp true l e) = .error k ∧ eval O env (.boolOp false l e) = .ok (.bool true)) ∧
+    (lv = .bool false ∨ lv = .null →
+      eval O env (.boolOp true l e) = .ok (.bool false) ∧ eval O env (.boolOp false l e) = .error k) := by
+  refine ⟨fun h => ?_, fun h => ?_⟩
+  · subst h; simp [eval_boolOp, hl, he, Outcome.bind]
+  · rcases h with rfl | rfl <;> simp [eval_boolOp, hl, he, Outcome.bind]
 
 /-- a member of an IN list without a value: an error unless an earlier member already matched -/
 theorem evalList_error (es : List Expr) (vs : List Value) (e : Expr) (rest : List Expr) (k : ErrKind)
@@ -171,7 +179,7 @@ theorem projection_error_is_line_error (qy : Query) (q : SelectStmt) (hq : qy.st
     (hw : q.wildcard = false)
     (idx : JoinIndex) (w : Bool) (es : EngineState) (l : Line) (hadm : anyResult l.row = true)
     (hpass : match q.filter with
-      | some f => ∃ v, eval O (envOfInsertions (columnsMapping qy.table l.row l.text)) f = .ok v ∧ v.truthy = true
+      | some f => eval O (envOfInsertions (columnsMapping qy.table l.row l.text)) f = .ok (.bool true)
       | none => True)
     (k : ErrKind)
     (hk : evalList O (envOfInsertions (columnsMapping qy.table l.row l.text)) (q.projections.map (·.2)) = .error k) :
@@ -180,8 +188,7 @@ theorem projection_error_is_line_error (qy : Query) (q : SelectStmt) (hq : qy.st
   | none => simp [executeLine, hq, hadm, lineEnvs, hj, bind, Outcome.bind, selectEnvs, selectOne, hf, hw, hk, pure]
   | some f =>
     rw [hf] at hpass
-    obtain ⟨v, hv, ht⟩ := hpass
-    simp [executeLine, hq, hadm, lineEnvs, hj, bind, Outcome.bind, selectEnvs, selectOne, hf, hw, hk, hv, ht, pure]
+    simp [executeLine, hq, hadm, lineEnvs, hj, bind, Outcome.bind, selectEnvs, selectOne, hf, hw, hk, hpass, pure]
 
 /-- **an expression that has no value on some processed row makes the query report an error rather than emit a wrong
 value**: the run over a file whose next line is such a line ends with that error, and prints nothing for the line
@@ -195,10 +202,45 @@ theorem no_value_is_reported (qy : Query) (q : SelectStmt) (hq : qy.stmt = .sele
   Props.C03Select.error_is_reported O qy idx w ls fl rest k hr
     (where_error_is_line_error O qy q hq hj idx w ls.es fl.line hadm f hf k hk)
 
+/-- **a type mismatch in WHERE is an error, not "no row"**: a WHERE expression whose value on an admitted line is of
+another type than BOOLEAN (and not NULL) — `WHERE v + 1`, `WHERE name` — has no truth value; the line's execution is
+the type error (finding D69, repaired: such a line used to be dropped silently) -/
+theorem where_type_mismatch_is_line_error (qy : Query) (q : SelectStmt) (hq : qy.stmt = .select q) (hj : qy.join = none)
+    (idx : JoinIndex) (w : Bool) (es : EngineState) (l : Line) (hadm : anyResult l.row = true)
+    (f : Expr) (hf : q.filter = some f) (v : Value)
+    (hv : eval O (envOfInsertions (columnsMapping qy.table l.row l.text)) f = .ok v) (hn : Props.C03.NoTruthValue v) :
+    executeLine O qy idx w es l = .error .typeError := by
+  simp [executeLine, hq, hadm, lineEnvs, hj, bind, Outcome.bind, selectEnvs, selectOne, hf, hv,
+    condHolds_typeError v hn.1 hn.2]
+
+/-- … and therefore of the run, with nothing printed for that line: the counterpart of `no_value_is_reported` for a
+WHERE that has a value but no truth value -/
+theorem where_type_mismatch_is_reported (qy : Query) (q : SelectStmt) (hq : qy.stmt = .select q) (hj : qy.join = none)
+    (idx : JoinIndex) (w : Bool) (ls : LoopState) (fl : FileLine) (rest : List FileLine) (hr : fl.readable = true)
+    (hadm : anyResult fl.line.row = true) (f : Expr) (hf : q.filter = some f) (v : Value)
+    (hv : eval O (envOfInsertions (columnsMapping qy.table fl.line.row fl.line.text)) f = .ok v)
+    (hn : Props.C03.NoTruthValue v) :
+    (runFile O qy idx w none (fl :: rest) ls).out.error = some .typeError ∧
+    (runFile O qy idx w none (fl :: rest) ls).out.printed = ls.out.printed :=
+  Props.C03Select.error_is_reported O qy idx w ls fl rest .typeError hr
+    (where_type_mismatch_is_line_error O qy q hq hj idx w ls.es fl.line hadm f hf v hv hn)
+
+/-- a WHERE that is FALSE or NULL on an admitted line does not hold: the line gives no row and the engine state is
+that of a line that is not admitted (NULL is "not true", not an error) -/
+theorem where_null_is_no_row (qy : Query) (q : SelectStmt) (hq : qy.stmt = .select q) (hj : qy.join = none)
+    (idx : JoinIndex) (w : Bool) (es : EngineState) (l : Line) (hadm : anyResult l.row = true)
+    (f : Expr) (hf : q.filter = some f) (v : Value)
+    (hv : eval O (envOfInsertions (columnsMapping qy.table l.row l.text)) f = .ok v) (hn : v = .bool false ∨ v = .null) :
+    executeLine O qy idx w es l = .ok (updateLimit true q.limit es none) := by
+  rcases hn with rfl | rfl <;>
+    simp [executeLine, hq, hadm, lineEnvs, hj, bind, Outcome.bind, selectEnvs, selectOne, hf, hv, pure] <;> rfl
+
 /-! ### non-vacuity -/
 
 example : eval {} {} (.not (.value (.bool true))) = .ok (.bool false) := by rfl
 example : eval {} {} (.not (.value (.int 1))) = .error .undefinedOperation := by rfl
+example : eval {} {} (.not (.value .null)) = .ok .null ∧
+    eval {} {} (.boolOp false (.not (.value .null)) (.value (.bool false))) = .ok (.bool false) := ⟨rfl, rfl⟩
 example : eval {} {} (.column "nope") = .error .columnNotFound := by rfl
 example : eval {} { table := [("x", .int 3)] } (.column "x") = .ok (.int 3) := by rfl
 example : eval {} {} (.compare .lt (.value (.bool true)) (.value (.int 1))) = .error .typeError := by rfl
